@@ -45,6 +45,14 @@ def trip_bound(f, fa, iv, h, body):
             il, ih = iv.interval(lo, site[0]), iv.interval(hi, site[0])
             if il is not None and ih is not None:
                 return max(0, ih[1] - il[0] + 1)
+        if y.op == "call" and y.args[0] in ("core::str::<impl str>::bytes", "core::str::<impl str>::chars"):
+            # at most one item per byte of the string; the string is the deref of an ArrayString<N>
+            z = y.args[1][0]
+            while z.op in ("ref", "mem", "memval"):
+                z = z.args[0]
+            if z.op == "call" and z.args[0] == "<util::array_string::ArrayString<N> as core::ops::Deref>::deref":
+                return libmodel.capacity_of_type(libmodel.obj_type(z.args[1][0]))
+            return None
         if y.op == "call" and y.args[0] in ("core::slice::<impl [T]>::iter", "core::slice::<impl [T]>::iter_mut",
                                             "util::data_vec::DataVec::<T, N>::iter", "util::data_vec::DataVec::<T, N>::iter_mut",
                                             "tinyvec::ArrayVec::<A>::iter", "util::Df88591String::<N>::iter"):
